@@ -74,7 +74,20 @@ pub fn run(ctx: &Ctx) -> i32 {
                         }
                     }
                 }
-                if let Ok(Ok(a)) = catch(|| Attachments::try_from_envelope(&e)) { for d in &ed { if a.get(&Digest::from_data(*d)).is_none() { acc.viol("C19|Attachments::try_from_envelope|missing", "container misses an attachment", cid("container"), json!({})) } } }
+                if let Ok(Ok(a)) = catch(|| Attachments::try_from_envelope(&e)) {
+                    for d in &ed { if a.get(&Digest::from_data(*d)).is_none() { acc.viol("C19|Attachments::try_from_envelope|missing", "container misses an attachment", cid("container"), json!({})) } }
+                    // putting the container's attachments back onto the envelope they came from, and adding the same attachments a second time
+                    // through the bulk adders (in reverse order), adds nothing: the query still returns exactly the added set, each once
+                    let again: Vec<(&str, Result<Envelope, crate::report::Panic>)> = vec![
+                        ("Attachments::add_to_envelope-again", catch(|| a.add_to_envelope(e.clone()))),
+                        ("add_assertions-again", catch(|| { let mut v = got.clone(); v.reverse(); e.add_assertions(&v) })),
+                        ("add_assertion_envelopes-again", catch(|| { let mut v = got.clone(); v.reverse(); v.extend(got.iter().cloned()); e.add_assertion_envelopes(&v).unwrap_or_else(|_| e.clone()) })),
+                    ];
+                    for (an, r2) in again { if let Ok(e2) = r2 {
+                        let n2 = e2.attachments().map(|v| { let mut d: Vec<[u8; 32]> = v.iter().map(bind::dg).collect(); d.sort(); d });
+                        if n2.as_ref().ok() != Some(&ed) || bind::dg(&e2) != bind::dg(&e) { acc.viol(format!("C19|{an}|set-differs"), "adding the attachments an envelope already holds a second time changes what the attachment query returns (or the envelope)", cid(an), json!({"envelope": crate::report::ff(&e)})) }
+                    } }
+                }
                 let corner = seq.iter().any(|i| *i >= 36);
                 for fv in [None, Some("v1"), Some("v2"), Some("v3"), Some(""), Some("V1")] { for fc in [None, Some("c1"), Some("c2"), Some("c3"), Some(""), Some("C1")] {
                     // all 36 combinations when a corner attachment is present; otherwise the 16 regular ones and each corner value alone
